@@ -12,11 +12,17 @@ DZ = "compression::dict_zip::blob_store::DictZipBlobStore::"
 
 def run(ctx):
     fx = ctx.facts("default")
-    fixtures.run(ctx, ['pair', 'batch'])
+    fixtures.run(ctx, ['pair', 'batch', 'delegate', 'serde'])
     # batch operations do to the store's state what the single-item operations do
     bfiles = sorted({fx.raw(f)['file'] for f in fx.fn_ids() if fx.raw(f)['file'].startswith('src/blob_store/') or fx.raw(f)['file'] == 'src/compression/dict_zip/blob_store.rs'})
     sibling.batch_effects(ctx, fx, bfiles)
     ctx.floor('R-SIBLING.batch.pairs', 6)
+    # wrapper stores answer from the store they wrap
+    sibling.wrapper_delegation(ctx, fx)
+    ctx.floor('R-DELEGATE.methods', 20)
+    # serde round trip of the store structs restores every field (id counters included)
+    flow.serde_fields_restored(ctx, fx, r'BlobStore$')
+    ctx.floor('R-FLOW.serde.visitors', 6)
     fl = sym.Flow(fx)
     nimpl = 0
     nwrap = 0
